@@ -229,7 +229,14 @@ def run_row(row):
         mutable_ids(res, seen)
         if any(i in inp for i in seen):
             bad.append(("remap", "result-shares-mutable-container-with-input", ""))
-    # research: every reported (path, value) must be retrievable with get_path
+    bad += research_check(objs)
+    return bad
+
+
+def research_check(objs):
+    """research: every reported (path, value) of a nested item must be retrievable with get_path"""
+    from boltons import iterutils as it
+    bad = []
     try:
         found = it.research(objs[1], query=lambda p, k, v: True)
         for path, value in found:
@@ -269,7 +276,16 @@ def _work(rows):
     return ("ok", out, len(rows))
 
 
-def random_heap(rng, n):
+def is_tree(heap):
+    seen = {}
+    for nd in heap:
+        for it_ in nd["items"]:
+            if not it_["s"]:
+                seen[it_["v"]] = seen.get(it_["v"], 0) + 1
+    return all(c == 1 for c in seen.values()) and 1 not in seen
+
+
+def random_heap(rng, n, tree=False):
     """Random well-formed heap: a spanning tree from node 1 plus extra shared / back references."""
     kinds = [rng.choice(["dict", "list", "tuple", "set", "frozenset", "list", "dict"]) for _ in range(n)]
     kinds[0] = rng.choice(["dict", "list", "tuple"])
@@ -291,7 +307,7 @@ def random_heap(rng, n):
             continue
         for _ in range(rng.randint(0, 2)):
             items[i].append((True, rng.randint(1, 3)))
-        if rng.random() < 0.5:
+        if not tree and rng.random() < 0.5:
             tgt = rng.randint(1, n)          # shared or cyclic reference
             items[i].append((False, tgt))
         if k == "tuple" and not items[i]:
@@ -320,10 +336,11 @@ def on_cycle_ok(heap):
 def records(rng, count):
     recs = []
     while len(recs) < count:
-        heap = random_heap(rng, rng.randint(2, 6))
+        tree = rng.random() < 0.35
+        heap = random_heap(rng, rng.randint(2, 6), tree)
         if not on_cycle_ok(heap):
             continue
-        prog = rng.choice([0, 1, 3, 5, 6, 0, 2, 4])
+        prog = rng.choice([0, 1, 3, 5, 6, 0, 2, 4] + ([7, 7, 7] if tree and is_tree(heap) else []))
         objs = build(heap)
         before = snapshot(objs, heap)
         n = len(heap)
@@ -357,6 +374,7 @@ def records(rng, count):
             rec["enters"] = [enters[i] for i in range(1, n + 1)]
             rec["exits"] = [exits[i] for i in range(1, n + 1)]
             rec["input_unchanged"] = snapshot(objs, heap) == before
+            rec["research"] = research_check(objs)
         except core.Hang:
             rec["error"] = "timeout"
         except Exception as ex:
@@ -389,6 +407,10 @@ def main(tier, seed):
     for rec in recs:      # set members are compared as sorted lists: put the expectation's items in the same order
         pass
     canary(stats, rows)
+    for rec in recs:
+        for label, what, detail in rec.pop("research", []):
+            verdict.fail({"subject": "iterutils." + label, "op": label, "what": what.split(":")[0], "prog": None},
+                         {"heap": rec["heap"], "observed": detail})
     core.validate_traces_generic(SPECDIR, "RemapTrace.tla", "RemapTrace.cfg", recs, stats, verdict, "iterutils.remap",
                                  sig_extra=lambda tr, ev, p: {"op": "remap", "what": p["st"]["why"], "prog": tr["prog"]})
     stats.trace_events = len(recs)
